@@ -345,9 +345,7 @@ Print Assumptions C06_mixed_evaluation_is_exact.
 
 (* ... and the premises hold in every world a growing MIXED network reaches (histories run5_ok: new properties, assignments, reads, plain
    observers, evaluator objects, fresh properties bound immediately or through an explicit evaluator - reading any existing properties,
-   bound or not, in either mode -, evaluateAll of explicit evaluators, reset(), assignment from another property (p = q.get()), observers
-   being disconnected again, destruction of properties that no live binding reads - plain, observed, bound immediately or through an
-   evaluator (whose registration then goes) *)
+   bound or not, in either mode -, evaluateAll of explicit evaluators) *)
 Theorem C06_mixed_network_caches_always_right :
   forall fn rtl fuel ops, PropMixedLazy.run5_ok fn rtl fuel world0 ops -> PropMixedLazy.ML fn (run fn rtl fuel ops).
 Proof. exact PropMixedLazy.mixed_reachable_ML. Qed.
@@ -420,6 +418,22 @@ Example C06_mixed_destruction_example :
   PropMixedLazy.run5_ok fn true 8 world0 (ops ++ [BevEvalAll 0]) /\
   map (values (run fn true 8 ops)) [1; 2; 3; 4] = [Some 8%Z; Some 4%Z; None; None] /\
   map (values (run fn true 8 (ops ++ [BevEvalAll 0]))) [1; 2] = [Some 8%Z; Some 10%Z].
+Proof.
+  split; [|split; vm_compute; reflexivity].
+  cbn [app PropMixedLazy.run5_ok PropMixedLazy.grow_op5]. repeat split; try (vm_compute; reflexivity); try (exists 1; split; [vm_compute; reflexivity|discriminate]).
+Qed.
+
+(* non-vacuity with both MOVES in a mixed world: 1 = f1(0) immediate, 2 = f2(1) through the evaluator, 3 = f3(2) immediate; the input 0 is move-constructed
+   into 5 (the binding of 1 follows), the evaluator-driven property 2 is move-constructed into 6 (its registration now updates 6, the
+   immediate binding of 3 reads 6), the unread property 3 is move-assigned over by a fresh plain property 7 (the binding of 3 is destroyed);
+   after an assignment to 5 one evaluateAll brings 6 up to date *)
+Example C06_mixed_moves_example :
+  let fn := fun (f : nat) (l : list Z) => Some (fold_right Z.add (Z.of_nat f) l) in
+  let ops := [PNew 0 1%Z; BevNew 0; PBind 1 (EOp1 1 (EProp 0)) MImmediate; PBind 2 (EOp1 2 (EProp 1)) (MEvaluator 0);
+              PBind 3 (EOp1 3 (EProp 2)) MImmediate; PMoveCtor 0 5; PMoveCtor 2 6; PNew 7 50%Z; PMoveAssign 3 7; PSet 5 7%Z WSet] in
+  PropMixedLazy.run5_ok fn true 8 world0 (ops ++ [BevEvalAll 0]) /\
+  map (values (run fn true 8 ops)) [1; 6; 3] = [Some 8%Z; Some 4%Z; Some 50%Z] /\
+  map (values (run fn true 8 (ops ++ [BevEvalAll 0]))) [1; 6; 3] = [Some 8%Z; Some 10%Z; Some 50%Z].
 Proof.
   split; [|split; vm_compute; reflexivity].
   cbn [app PropMixedLazy.run5_ok PropMixedLazy.grow_op5]. repeat split; try (vm_compute; reflexivity); try (exists 1; split; [vm_compute; reflexivity|discriminate]).
